@@ -218,8 +218,20 @@ func loadContracts(path string) (*ContractSet, error) {
 					full = rosmarPkg + "." + name
 				}
 			}
+			// short name: Type.method for methods (receiver without pointer / type parameters), else the function name
 			short := name
-			if i := strings.LastIndex(short, "."); i >= 0 {
+			if strings.HasPrefix(short, "(") {
+				if j := strings.Index(short, ")."); j > 0 {
+					recv := strings.TrimPrefix(short[1:j], "*")
+					if k := strings.Index(recv, "["); k >= 0 {
+						recv = recv[:k]
+					}
+					if k := strings.LastIndex(recv, "."); k >= 0 {
+						recv = recv[k+1:]
+					}
+					short = recv + "." + short[j+2:]
+				}
+			} else if i := strings.LastIndex(short, "."); i >= 0 {
 				short = short[i+1:]
 			}
 			if _, dup := cs.fns[full]; dup {
